@@ -383,7 +383,9 @@ func (t *t2tile) progression(order, layers, nl, ncomp int) []packetRef {
 // Precincts: for resolutions above 0 the library assigns code-blocks to precincts on a
 // composite (LL|HL / LH|HH) layout of the resolution instead of partitioning each sub-band
 // (B.6, Figure B.8); with more than one precinct at such a resolution its packets cannot be
-// read by a T.800 reader at all, and WalkPackets returns ErrT2Unsupported for them.
+// read by a T.800 reader at all, and WalkPackets returns ErrT2Unsupported for them. Likewise
+// the library does not limit the code-block size by the precinct size (B.7); streams whose
+// declared code-block exceeds a multi-precinct resolution's precinct size are not modelled.
 func (j *J2K) WalkPackets() (*T2Stats, error) {
 	st, err := j.walkPackets(false, false)
 	if err == nil {
@@ -473,6 +475,9 @@ func (j *J2K) walkPackets(omitEmpty, tileLocal bool) (*T2Stats, error) {
 			var rs []*t2res
 			for r := 0; r <= nl; r++ {
 				res := buildRes(t.x0, t.y0, t.x1, t.y1, nl, r, cod)
+				if res != nil && r == 0 && len(res.precincts) > 1 && (floorLog2(cod.CBW) > res.ppx || floorLog2(cod.CBH) > res.ppy) {
+					return st, &ErrT2Unsupported{"declared code-block larger than the precinct (the library does not limit the code-block size by the precinct size, B.7)"}
+				}
 				if res != nil && r > 0 && len(res.precincts) > 1 {
 					return st, &ErrT2Unsupported{"more than one precinct at a resolution above 0 (the library's precinct layout is not T.800's)"}
 				}
